@@ -49,6 +49,8 @@ SNIPPETS = [
     'type T { #[address(9223372036854775807)] a: u64 }', 'type T { a: *mut Array<SharedPtr<Item>>>, b: Foo<Bar<>>>> }',
     'type T { a: Foo>, b: Foo<<>, c: Foo<, d: <> }', 'type T { a: Map<K, V>, b: Vec<> } impl T { #[address(1)] fn f(&self, a: Foo>>) -> Bar<; }',
     'extern type Shared<T>>; pub extern g: Shared>;',
+    '#[size(4611686018427387904), align(4611686018427387904)] extern type Huge; type T { a: u32, h: Huge } type U { p: *const u8, h: Huge, q: u64 }',
+    '#[size(0), align(4611686018427387904)] extern type Z; #[align(8)] type T { z: Z, a: u64, b: u32 } #[size(8), align(1073741824)] extern type Y; type V { a: u32, y: Y }',
     'type Root { a: u32 } type L { #[base] r#type: Root } type R { #[base] r#type: Root } type D { #[base] left: L, #[base] r#fn: R }',
     'type Root { a: u32 } type L { #[base] r#mod: Root, x: u32 } type R { #[base] r#mod: Root } type M { #[base] r#loop: L } type D { #[base] a: M, #[base] b: R }',
     'type Player { _: unknown<16>, #[address(8)] pub health: u32 }', 'type P { _: u64, _: unknown<4>, #[address(2)] a: u8 } type Q { #[address(4)] a: u8, #[address(2)] b: u8 }',
